@@ -544,9 +544,7 @@ def scenario_cli(sc, tmproot, chooser_factory):
 
 def Fraction_round(x, sr):
     from fractions import Fraction
-    p = Fraction(str(x)) * sr
-    fl = p.numerator // p.denominator
-    return fl + (1 if p - fl > Fraction(1, 2) else 0)
+    return round(Fraction(str(x)) * sr)          # exact arithmetic, ties to even: "round(silence*rate)" as the statement writes it
 
 
 # ------------------------------------------------------------------------------------------------
@@ -801,6 +799,10 @@ def rand_scenario(rng, tier, prop):
     for _ in range(50):
         nfr = rng.randint(0, 12) if rng.random() < .7 else rng.choice([255, 256, 512, 1023, 1024, 1025, 2048, 3072, 4096, 8192, 65536])   # buffer-sized gaps too
         silence = max(0.0, float("%.6g" % ((nfr + rng.choice([-0.4, -0.3, 0, 0.3, 0.4])) / sr)))
+        if rng.random() < .25:
+            # an exact tie: dyadic duration, product with the rate exactly k + 1/2 (round() is half-to-even, nothing is float-ambiguous)
+            silence = (2 * rng.randint(0, 5) + 1) / (1 << (sr & -sr).bit_length())
+            break
         fr = (__import__("fractions").Fraction(str(silence)) * sr) % 1
         if abs(fr - __import__("fractions").Fraction(1, 2)) >= __import__("fractions").Fraction(1, 20):
             break
